@@ -723,4 +723,93 @@ class _ExpErr(Exception):
     pass
 
 
-RULES = [rule_expand, rule_backend, rule_blanks, rule_ellipsis, rule_implicit, rule_interleaved, rule_single, rule_canon, rule_ncon]
+def rule_interleaved_eval(ctx):
+    """(engine E9) `convert_from_interleaved` with `get_symbol_map` is a pure function of the argument tuple.  Its source is
+    evaluated on every interleaved call with one to three operands, sublists of up to two labels from a mixed pool
+    (integers, a string, a tuple, Ellipsis), with and without an output sublist, and compared with the definition:
+    operand i is argument 2i, its sublist argument 2i+1, labels are renamed consistently in order of first appearance,
+    Ellipsis becomes '...', the output sublist — also an *empty* one — follows '->'."""
+    import itertools
+
+    from ..engine.minieval import Mini, NoEval, Raised
+
+    r = RuleResult("C12-INTERLEAVEDEVAL", "the interleaved form is converted as defined on a bounded family", 1)
+    m = ctx.p.module(C.UTILS)
+    names = ("convert_from_interleaved", "get_symbol_map", "get_symbol")
+    fs = {g.name: g.node for g in m.all_funcs if g.cls is None and g.name in names}
+    C.require(len(fs) == len(names), "interleaved helpers not found")
+    consts = {nm: vals[0].value for nm, vals in m.assigns.items()
+              if len(vals) == 1 and isinstance(vals[0], ast.Constant) and isinstance(vals[0].value, (str, int))}
+    f = ctx.p.func(C.UTILS, "convert_from_interleaved")
+    k = ctx.key(f, "C12-INTERLEAVEDEVAL")
+    pool = [0, 1, "x", (1, 2)]
+    subs = [()] + [(a,) for a in pool] + [(a, b) for a in pool[:3] for b in pool[:3]] + [(Ellipsis, 0), (1, Ellipsis)]
+    bad = None
+    n = 0
+    try:
+        for nops in (1, 2, 3):
+            for combo in itertools.product(subs if nops < 3 else subs[:6], repeat=nops):
+                seen = []
+                for t in combo:
+                    for lab in t:
+                        if lab is not Ellipsis and lab not in seen:
+                            seen.append(lab)
+                outs = [None, (), tuple(reversed(seen[:2]))]
+                for out in outs:
+                    args = []
+                    for i, t in enumerate(combo):
+                        args += [("array", i), list(t)]
+                    if out is not None:
+                        args.append(list(out))
+                    n += 1
+                    try:
+                        eq, arrays = Mini(fs, budget=20000, consts=consts).call(f.node, [tuple(args)])
+                        if list(arrays) != [("array", i) for i in range(nops)]:
+                            raise _ExpErr(f"operands come back as {list(arrays)}")
+                        lhs, sep, rhs = eq.partition("->")
+                        if (out is None) != (sep == ""):
+                            raise _ExpErr(f"equation `{eq}`: the output part is {'missing' if sep == '' else 'invented'}")
+                        parts = lhs.split(",")
+                        if len(parts) != nops:
+                            raise _ExpErr(f"equation `{eq}` has {len(parts)} operands")
+                        mp = {}
+                        for t, part in zip(combo, parts):
+                            toks = []
+                            i_ = 0
+                            while i_ < len(part):
+                                if part.startswith("...", i_):
+                                    toks.append("...")
+                                    i_ += 3
+                                else:
+                                    toks.append(part[i_])
+                                    i_ += 1
+                            if len(toks) != len(t):
+                                raise _ExpErr(f"sublist {list(t)} becomes `{part}`")
+                            for lab, tok in zip(t, toks):
+                                if lab is Ellipsis:
+                                    if tok != "...":
+                                        raise _ExpErr(f"Ellipsis becomes `{tok}`")
+                                elif mp.setdefault(lab, tok) != tok or tok == "...":
+                                    raise _ExpErr(f"label {lab!r} is not renamed consistently in `{eq}`")
+                        if len(set(mp.values())) != len(mp):
+                            raise _ExpErr(f"two labels share a symbol in `{eq}`")
+                        if out is not None and rhs != "".join(mp[lab] for lab in out):
+                            raise _ExpErr(f"output sublist {list(out)} becomes `{rhs}`")
+                    except _ExpErr as e:
+                        bad = bad or (args, str(e))
+                    except Raised as e:
+                        bad = bad or (args, f"raises ({e.text})")
+                    except NoEval:
+                        raise
+                    except Exception as e:
+                        bad = bad or (args, f"raises ({type(e).__name__}: {e})")
+    except NoEval as e:
+        raise AnalysisError(f"convert_from_interleaved: not evaluable by the mini-evaluator ({e})")
+    if bad:
+        r.violation(k, f.loc, f"for the interleaved arguments {bad[0]}: {bad[1]}")
+    else:
+        r.ok(k, f.loc, f"{n} interleaved calls converted as defined")
+    return r
+
+
+RULES = [rule_interleaved_eval, rule_expand, rule_backend, rule_blanks, rule_ellipsis, rule_implicit, rule_interleaved, rule_single, rule_canon, rule_ncon]
